@@ -24,8 +24,8 @@ def build(native=True):
     # build roto (the dependency) once by running the cheapest harness; every later `--harness X` invocation only
     # code-generates X (an unfiltered --only-codegen would link all harnesses: minutes)
     rc, out, _ = run(["cargo", "kani", "-Z", "stubbing", "--target-dir", KTARGET, "--harness",
-                      "c02_layout::c02_layout_union", "--exact"], cwd=KDIR)
-    if rc != 0:
+                      "k_build_probe", "--exact"], cwd=KDIR)
+    if rc != 0 or "VERIFICATION:- SUCCESSFUL" not in out:
         log(out[-6000:])
         log("kani build failed")
         raise SystemExit(2)
@@ -47,18 +47,21 @@ def all_harnesses():
 
 
 def parse_playback(out):
-    """Concrete values of Kani's printed playback test -> list of byte lists."""
-    m = re.search(r"let concrete_vals: Vec<Vec<u8>> = vec!\[(.*?)\n\s*\];", out, re.S)
-    if not m:
-        return None
-    vals = []
-    for line in m.group(1).split("\n"):
-        line = line.strip()
-        mm = re.match(r"vec!\[(.*)\],?$", line)
-        if mm:
-            body = mm.group(1).strip()
-            vals.append([int(x) for x in body.split(",") if x.strip() != ""])
-    return vals
+    """Concrete values of Kani's printed playback tests (one test per failed check) -> list of lists of byte lists."""
+    tests = []
+    for m in re.finditer(r"(?:/// Check for `(\w+)`[^\n]*\n(?:[^\n]*\n){0,6}?\s*)?let concrete_vals: Vec<Vec<u8>> = vec!\[(.*?)\n\s*\];", out, re.S):
+        if m.group(1) == "cover":
+            continue        # witnesses of satisfied cover! statements, not counterexamples
+        vals = []
+        for line in m.group(2).split("\n"):
+            line = line.strip()
+            mm = re.match(r"vec!\[(.*)\],?$", line)
+            if mm:
+                body = mm.group(1).strip()
+                vals.append([int(x) for x in body.split(",") if x.strip() != ""])
+        if vals not in tests:
+            tests.append(vals)
+    return tests or None
 
 
 # failed checks that are *expected* loud stops of the code under test in "must stop" harnesses
@@ -146,7 +149,7 @@ def reproduced(rep):
 MEMORY_FAILURES = ("dereference failure", "deallocated", "dead object", "outside object bounds", "double free", "misaligned")
 
 
-def run_set(res, harnesses, timeout, mem_gb=16, jobs=None, known=()):
+def run_set(res, harnesses, timeout, mem_gb=16, jobs=None, known=(), hunt=()):
     """harnesses: list of qualified names. Fills res (common.Result). known: list of
     (harness-name-regex, failed-check-regex, text) describing findings listed in known-findings.json."""
     build()
@@ -164,10 +167,14 @@ def run_set(res, harnesses, timeout, mem_gb=16, jobs=None, known=()):
             for (hre, fre, text) in known:
                 if re.search(hre, r["harness"]) and all(re.search(fre, f) for f in r["failed"]):
                     hit = text
-            vals = r.get("playback")
+            tests = r.get("playback") or []
             mem = any(any(k in f for k in MEMORY_FAILURES) for f in r["failed"])
-            rep = replay(r["harness"], vals, miri=mem) if vals is not None else {}
-            how = reproduced(rep) if rep else None
+            rep, how, vals = {}, None, None
+            for vals in tests:
+                rep = replay(r["harness"], vals, miri=mem)
+                how = reproduced(rep)
+                if how:
+                    break
             r["replay"] = {k: v["rc"] for k, v in rep.items()}
             r["reproduced_in"] = how
             if hit:
@@ -181,6 +188,9 @@ def run_set(res, harnesses, timeout, mem_gb=16, jobs=None, known=()):
             else:
                 res.inconclusive.append(f"{r['harness']}: CBMC reports '{desc}' but the native replay did not reproduce it "
                                         f"({r['replay']}) - harness/stub/encoding problem, not reported as violation")
+        elif r["harness"] in hunt and st in ("timeout", "error"):
+            # refutation attempt only: the proof of this obligation needs more time/memory than this tier has; nothing is claimed
+            r["status"] = "undecided (refutation attempt: no counterexample within the quick-tier budget; proof only in the thorough tier)"
         else:
             res.inconclusive.append(f"{r['harness']}: {st} after {r['wall_s']}s: {r.get('tail','')[-300:]}")
     res.cov.setdefault("kani", {})
